@@ -87,16 +87,18 @@ def _task(task):
         for u in units:
             for v in units:
                 if u != v and (lin[u][1] != 0 or lin[v][1] != 0):
-                    for x, r in zip(V, c[u, v]):
-                        part.count("evaluations")
-                        try:
-                            g = conv(qt, [(u, 1)], [(v, 1)], x)
-                        except Exception as e:
-                            g = repr(e)
-                        if not (g == r or (g != g and r != r)):
-                            part.violation("C01:list-form-exponent-1:%s:%s:%s->%s" % (world, qt, u, v), {"x": x, "list_form": g, "plain": r},
-                                           _snip(world, "a = db.Convert(%r, [(%r, 1)], [(%r, 1)], %r)\nb = db.Convert(%r, %r, %r, %r)\nprint(a, b)\nassert a == b" % (qt, u, v, x, qt, u, v, x)))
-                            break
+                    # (as a list, and as the tuple Quantity.GetComposingUnits() hands out)
+                    for form, mk in (("list", lambda w: [(w, 1)]), ("tuple", lambda w: ((w, 1),))):
+                        for x, r in zip(V, c[u, v]):
+                            part.count("evaluations")
+                            try:
+                                g = conv(qt, mk(u), mk(v), x)
+                            except Exception as e:
+                                g = repr(e)
+                            if not (g == r or (g != g and r != r)):
+                                part.violation("C01:%s-form-exponent-1:%s:%s:%s->%s" % (form, world, qt, u, v), {"x": x, "composing_form": g, "plain": r},
+                                               _snip(world, "a = db.Convert(%r, %r, %r, %r)\nb = db.Convert(%r, %r, %r, %r)\nprint(a, b)\nassert a == b" % (qt, mk(u), mk(v), x, qt, u, v, x)))
+                                break
         for u in units:
             su, ou = lin[u]
             # identity path
